@@ -240,37 +240,40 @@ fn check_issues(what: &str, arr: Option<&JVal>, msgs: &[LogMsg], msg_member: &st
     Ok(())
 }
 
-fn judge_status(case: &Case, body: &[u8]) -> Result<(), (String, String)> {
+fn judge_status(case: &Case, body: &[u8], info: &mut CaseInfo) -> Result<(), (String, String)> {
+    // Only well-formedness is the property; content that decodes differently from what was injected
+    // (a legitimate renderer may truncate or sanitise) is recorded as a class, never as a verdict.
+    let mut beyond = |kind: &str, _msg: String| info.class(format!("beyond_property:status/{}", kind));
     let generic = |k: &str| status_key(case).map(|s| s.to_string()).unwrap_or_else(|| format!("C22/status/{}", k));
     let doc = JVal::parse(body).map_err(|e| (generic("invalid-json"), format!("/api/v1/status is not valid JSON: {}", e)))?;
     let names = |member: &str| -> Vec<String> { doc.get(member).map(|o| o.members().iter().map(|(k, _)| k.clone()).collect()).unwrap_or_default() };
     if names("tals") != case.tals {
-        return Err((generic("decode/tal-names"), format!("tals members {:?}, injected {:?}", names("tals"), case.tals)));
+        beyond("decode/tal-names", format!("tals members {:?}, injected {:?}", names("tals"), case.tals));
     }
     if names("repositories") != case.repos {
-        return Err((generic("decode/repository-uris"), format!("repositories members {:?}, injected {:?}", names("repositories"), case.repos)));
+        beyond("decode/repository-uris", format!("repositories members {:?}, injected {:?}", names("repositories"), case.repos));
     }
     let rsync: Vec<String> = case.rsync.iter().map(|e| e.module.clone()).collect();
     if names("rsync") != rsync {
-        return Err((generic("decode/rsync-modules"), format!("rsync members {:?}, injected {:?}", names("rsync"), rsync)));
+        beyond("decode/rsync-modules", format!("rsync members {:?}, injected {:?}", names("rsync"), rsync));
     }
     let rrdp: Vec<String> = case.rrdp.iter().map(|e| e.uri.clone()).collect();
     if names("rrdp") != rrdp {
-        return Err((generic("decode/rrdp-uris"), format!("rrdp members {:?}, injected {:?}", names("rrdp"), rrdp)));
+        beyond("decode/rrdp-uris", format!("rrdp members {:?}, injected {:?}", names("rrdp"), rrdp));
     }
     for (i, e) in case.rsync.iter().enumerate() {
         let obj = &doc.get("rsync").unwrap().members()[i].1;
         match &e.log {
-            Some(l) => check_issues("rsync", obj.get("issues"), l, "messages").map_err(|m| (generic("decode/log-messages"), m))?,
-            None if obj.get("issues").is_some() => return Err((generic("decode/log-messages"), "issues without a log book".into())),
+            Some(l) => if let Err(m) = check_issues("rsync", obj.get("issues"), l, "messages") { beyond("decode/log-messages", m) },
+            None if obj.get("issues").is_some() => beyond("decode/log-messages", "issues without a log book".into()),
             None => {}
         }
     }
     for (i, e) in case.rrdp.iter().enumerate() {
         let obj = &doc.get("rrdp").unwrap().members()[i].1;
         match &e.log {
-            Some(l) => check_issues("rrdp", obj.get("issues"), l, "messages").map_err(|m| (generic("decode/log-messages"), m))?,
-            None if obj.get("issues").is_some() => return Err((generic("decode/log-messages"), "issues without a log book".into())),
+            Some(l) => if let Err(m) = check_issues("rrdp", obj.get("issues"), l, "messages") { beyond("decode/log-messages", m) },
+            None if obj.get("issues").is_some() => beyond("decode/log-messages", "issues without a log book".into()),
             None => {}
         }
     }
@@ -279,10 +282,10 @@ fn judge_status(case: &Case, body: &[u8]) -> Result<(), (String, String)> {
     want.sort_by(|a, b| a.0.cmp(&b.0));
     let got = doc.get("pubPointIssues").map(|o| o.members().to_vec()).unwrap_or_default();
     if got.iter().map(|g| g.0.clone()).collect::<Vec<_>>() != want.iter().map(|w| w.0.clone()).collect::<Vec<_>>() {
-        return Err((generic("decode/pub-point-uris"), format!("pubPointIssues members {:?}", got.iter().map(|g| &g.0).collect::<Vec<_>>())));
+        beyond("decode/pub-point-uris", format!("pubPointIssues members {:?}", got.iter().map(|g| &g.0).collect::<Vec<_>>()));
     }
     for (g, w) in got.iter().zip(want.iter()) {
-        check_issues("pubPointIssues", Some(&g.1), &w.1, "message").map_err(|m| (generic("decode/log-messages"), m))?;
+        if let Err(m) = check_issues("pubPointIssues", Some(&g.1), &w.1, "message") { beyond("decode/log-messages", m) };
     }
     if case.rtr_detailed {
         let clients = doc.get("rtr").and_then(|r| r.get("clients")).map(|c| c.members().len());
@@ -290,13 +293,14 @@ fn judge_status(case: &Case, body: &[u8]) -> Result<(), (String, String)> {
         want.sort();
         want.dedup();
         if clients != Some(want.len()) {
-            return Err((generic("decode/rtr-clients"), format!("{:?} rtr clients listed, {} connected", clients, want.len())));
+            beyond("decode/rtr-clients", format!("{:?} rtr clients listed, {} connected", clients, want.len()));
         }
     }
     Ok(())
 }
 
-fn judge_metrics(case: &Case, body: &[u8]) -> Result<(), (String, String)> {
+fn judge_metrics(case: &Case, body: &[u8], info: &mut CaseInfo) -> Result<(), (String, String)> {
+    let mut beyond = |kind: &str, _msg: String| info.class(format!("beyond_property:metrics/{}", kind));
     let generic = |k: &str| label_key(case).map(|s| s.to_string()).unwrap_or_else(|| format!("C22/metrics/{}", k));
     let doc = prom_parse(body).map_err(|e| (generic("parse-error"), format!("/metrics does not parse as Prometheus text format: {}", e)))?;
     let labels_of = |metric: &str, label: &str| -> Vec<String> { doc.samples.iter().filter(|s| s.name == metric).filter_map(|s| s.labels.iter().find(|(n, _)| n == label).map(|(_, v)| v.clone())).collect() };
@@ -314,7 +318,7 @@ fn judge_metrics(case: &Case, body: &[u8]) -> Result<(), (String, String)> {
     for (metric, label, want) in checks {
         let got = labels_of(metric, label);
         if got != *want {
-            return Err((generic(&format!("decode/{}", metric)), format!("{}{{{}}} label values decode to {:?}, injected {:?}", metric, label, got, want)));
+            beyond(&format!("decode/{}", metric), format!("{}{{{}}} label values decode to {:?}, injected {:?}", metric, label, got, want));
         }
     }
     // every sample of a per-TAL / per-repository family must carry one of the injected names
@@ -328,12 +332,12 @@ fn judge_metrics(case: &Case, body: &[u8]) -> Result<(), (String, String)> {
         };
         match s.labels.iter().find(|(n, _)| n == label) {
             Some((_, v)) if pool.contains(v) => {}
-            other => return Err((generic("decode/stray-label"), format!("line {}: {} has {} = {:?}", s.line, s.name, label, other))),
+            other => beyond("decode/stray-label", format!("line {}: {} has {} = {:?}", s.line, s.name, label, other)),
         }
     }
     for (n, _) in &doc.types {
         if !doc.help.iter().any(|(h, _)| h == n) {
-            return Err((generic("type-without-help"), format!("metric {} has TYPE but no HELP", n)));
+            beyond("type-without-help", format!("metric {} has TYPE but no HELP", n));
         }
     }
     if case.rtr_detailed {
@@ -342,7 +346,7 @@ fn judge_metrics(case: &Case, body: &[u8]) -> Result<(), (String, String)> {
         want.dedup();
         let got = labels_of("routinator_rtr_client_connections", "addr");
         if got != want.iter().map(|a| a.to_string()).collect::<Vec<_>>() {
-            return Err((generic("decode/rtr-clients"), format!("rtr client addr labels {:?}, connected {:?}", got, want)));
+            beyond("decode/rtr-clients", format!("rtr client addr labels {:?}, connected {:?}", got, want));
         }
     }
     Ok(())
@@ -405,7 +409,7 @@ pub fn prop(env: &Env, case: &Case, info: &mut CaseInfo) -> Verdict {
         if resp.status != 200 {
             return Verdict::fail("C22/status/http-status", format!("GET /api/v1/status -> {}", resp.status));
         }
-        if let Err((key, msg)) = judge_status(case, &resp.body()) {
+        if let Err((key, msg)) = judge_status(case, &resp.body(), info) {
             return Verdict::fail(key, msg);
         }
         info.nt(st.iter().any(|s| interesting_for_status(s)));
@@ -425,7 +429,7 @@ pub fn prop(env: &Env, case: &Case, info: &mut CaseInfo) -> Verdict {
         if resp.status != 200 {
             return Verdict::fail("C22/metrics/http-status", format!("GET /metrics -> {}", resp.status));
         }
-        if let Err((key, msg)) = judge_metrics(case, &resp.body()) {
+        if let Err((key, msg)) = judge_metrics(case, &resp.body(), info) {
             return Verdict::fail(key, msg);
         }
         info.nt(lb.iter().any(|s| interesting_for_metrics(s)));
@@ -440,7 +444,19 @@ pub fn prop(env: &Env, case: &Case, info: &mut CaseInfo) -> Verdict {
 // Generators
 
 fn logs(class: StrClass) -> BoxedStrategy<Option<Vec<LogMsg>>> {
-    prop::option::weighted(0.6, prop::collection::vec((0u8..4, text_strategy(class, 24)).prop_map(|(level, text)| LogMsg { level, text }), 1..=3)).boxed()
+    // one message in eight is long: a plain banner that ends within 40 characters before a power-of-two
+    // length (typical buffer / truncation limits), followed by text of the case's class, so that escapes
+    // fall on and around those offsets of the rendered string
+    let text = prop_oneof![
+        7 => text_strategy(class, 24),
+        1 => (prop::sample::select(vec![64usize, 128, 256, 512, 1024, 2048, 4096, 8192, 16384, 65536]), 0usize..40, text_strategy(class, 24), 0usize..3).prop_map(|(base, back, t, tail)| {
+            let mut s = "#".repeat(base - back.min(base));
+            s.push_str(&t);
+            s.push_str(&"z".repeat(tail * 700));
+            s
+        }),
+    ];
+    prop::option::weighted(0.6, prop::collection::vec((0u8..4, text).prop_map(|(level, text)| LogMsg { level, text }), 1..=3)).boxed()
 }
 
 /// Valid rsync module / https URIs built from the characters rpki's URI types admit.
@@ -525,7 +541,7 @@ fn directed(tal: &str, msg: &str) -> Case {
 
 pub fn run(ctx: &Ctx, rep: &mut Report, replay: Option<&serde_json::Value>) {
     rep.rule(
-        "Metrics values with 0..=5 TAL names, 0..=4 repository URIs (valid URIs and arbitrary strings), 0..=3 rsync and RRDP entries with optional log books of 1..=3 messages, publication-point logs and 0..=3 RTR clients; every free-text string of a case is drawn from one class (plain / anything but quote, backslash, C0 controls / with quote and backslash / with C0 controls except LF / anything; alphabet of 18 letters + 47 special characters incl. NUL, TAB, CR, LF, ESC, DEL, U+2028, BOM, combining and non-BMP characters); installed via SharedHistory::update, fetched through the real dispatcher; non-trivial = a judged document renders a string with a quote, backslash, control, structural ({},=# space) or non-ASCII character; distinct by serialised case",
+        "Metrics values with 0..=5 TAL names, 0..=4 repository URIs (valid URIs and arbitrary strings), 0..=3 rsync and RRDP entries with optional log books of 1..=3 messages (one in eight long: a banner ending just before a power-of-two length 64..65536, then class text), publication-point logs and 0..=3 RTR clients; every free-text string of a case is drawn from one class (plain / anything but quote, backslash, C0 controls / with quote and backslash / with C0 controls except LF / anything; alphabet of 18 letters + 47 special characters incl. NUL, TAB, CR, LF, ESC, DEL, U+2028, BOM, combining and non-BMP characters); installed via SharedHistory::update, fetched through the real dispatcher; non-trivial = a judged document renders a string with a quote, backslash, control, structural ({},=# space) or non-ASCII character; distinct by serialised case",
     );
     rep.assume("a parse is successful when serde_json accepts /api/v1/status and the exposition satisfies the Prometheus text format 0.0.4 grammar (label value escapes \\\\, \\\", \\n only; blanks between tokens tolerated as by the reference Go parser); grouping of a family's samples is not demanded");
     rep.assume("log books are filled through LogBookWriter under a permissive global logger installed by the check");
